@@ -10,13 +10,29 @@ open Bolt.FL Bolt.Store
     the previous version does not reference. -/
 theorem revert_prev_intact (s : St) (hr : Reachable s) (s' : St) (h : stepAll s .commit = some s') :
     s'.old = some s.cur ∧ Intact s'.disk s.cur := by
-  sorry
+  obtain ⟨w, hw, rfl⟩ := step_commit h
+  exact ⟨rfl, intact_cur_write hr.inv hw _ (fun p hp => hp) _⟩
 
 /-- **Abandoning and rebuilding the free list**: the ids a fresh open computes are exactly
     the pages below the high-water mark that the newest version does not reference, and they
     coincide with free ∪ pending of the running database (C13 `scan = persisted`). -/
 theorem rebuild_exact (s : St) (hr : Reachable s) (hw : s.w = none) :
     ∀ p, p ∈ freshFree s.cur ↔ (p ∈ s.fl.freeIds ∨ p ∈ s.fl.pendingIds) := by
-  sorry
+  have hi := hr.inv
+  intro p
+  rw [mem_freshFree]
+  constructor
+  · rintro ⟨h1, h2, h3⟩
+    rcases hi.cover p h1 (by rw [St.hwm_none hw]; exact h2) with h | h | h | h
+    · exact absurd h h3
+    · exact Or.inl h
+    · exact Or.inr h
+    · rw [St.allocated_none hw] at h; cases h
+  · rintro (h | h)
+    · exact ⟨hi.fl.freeIds_ge2 h, hi.free_bd p h, fun hu => hi.used_free p hu h⟩
+    · refine ⟨hi.fl.pending_ge2 p h, hi.pend_bd p h, fun hu => ?_⟩
+      have := hi.used_pend p hu h
+      rw [St.freed_none hw] at this
+      cases this
 
 end Bolt.C20
